@@ -31,7 +31,7 @@ VARIABLES tag,     \* tag[n]: entry tag of entry n (1 = root); entries are numbe
 vars == <<tag, kids, par, phase, insts, memo, nq, op>>
 View == <<tag, kids, par, phase, insts, memo, nq>>
 
-InnerTags == {"a", "b"}            \* entries that may have children
+InnerTags == {"a", "ab"}           \* entries that may have children (one tag is a proper prefix of the other, like list and list_comp in the grammar)
 LeafTags == {"tra", "__empty__"}   \* token without own node class (its tag holds the root tag and an inner tag as substrings) / empty placeholder
 Entries == DOMAIN tag
 Root == 1
@@ -73,7 +73,7 @@ Pluck(n) == PluckAlong(Root, ChainOf(n))
 -----------------------------------------------------------------------------
 (* relatives: query.py *)
 
-Resolvable(t) == t \in {"r", "a", "b", "__empty__"}     \* tags with a registered node class ("tra" falls back)
+Resolvable(t) == t \in {"r", "a", "ab", "__empty__"}     \* tags with a registered node class ("tra" falls back)
 RECURSIVE NearestResolvable(_)
 NearestResolvable(n) == IF n = 0 THEN 0 ELSE IF Resolvable(tag[n]) THEN n ELSE NearestResolvable(par[n])
 ParentOf(n) == NearestResolvable(par[n])                  \* 0 = NodeNotFound
@@ -85,7 +85,7 @@ AncestorOf(n, t) == IF n = 0 THEN 0 ELSE IF tag[n] = t THEN n ELSE AncestorOf(pa
 \* the node class of an entry is a function of the tree alone: first accepting class in registration order
 Classify(n) == CASE tag[n] = "r" -> "Root"
                  [] tag[n] = "a" -> (IF par[n] # 0 /\ tag[par[n]] = "r" THEN "A1" ELSE "A2")
-                 [] tag[n] = "b" -> (IF kids[n] # <<>> THEN "B1" ELSE "B2")
+                 [] tag[n] = "ab" -> (IF kids[n] # <<>> THEN "B1" ELSE "B2")
                  [] tag[n] = "__empty__" -> "Empty"
                  [] OTHER -> "Terminal"
 
@@ -108,11 +108,11 @@ StartQueries == /\ phase = "build" /\ phase' = "query" /\ op' = [name |-> "start
 
 SeqSet(s) == {s[i] : i \in DOMAIN s}
 \* resolving entries instantiates them once; the cache never changes an entry's class afterwards.
-\* Deciding the class of a not yet instantiated "b" entry looks at its children through the node API, which
+\* Deciding the class of a not yet instantiated "ab" entry looks at its children through the node API, which
 \* instantiates them too (a matcher may look down, never up): the set of entries instantiated by a query is
 \* the closure of its results under that rule.
 RECURSIVE Closure(_)
-Closure(ns) == LET fresh == {n \in ns : PathOf(n) \notin DOMAIN insts /\ tag[n] = "b"}
+Closure(ns) == LET fresh == {n \in ns : PathOf(n) \notin DOMAIN insts /\ tag[n] = "ab"}
                    more == ns \cup UNION {SeqSet(kids[n]) : n \in fresh}
                IN IF more = ns THEN ns ELSE Closure(more)
 Resolved(ns0) == LET ns == Closure(ns0) IN
@@ -140,7 +140,7 @@ Next ==
   \/ \E p \in Entries, t \in InnerTags \cup LeafTags : AddChild(p, t)
   \/ StartQueries
   \/ \E n \in Entries : \E kind \in {"by", "parent", "children", "siblings"} : Query(kind, n, "")
-  \/ \E n \in Entries, t \in {"r", "a", "b"} : Query("ancestor", n, t)
+  \/ \E n \in Entries, t \in {"r", "a", "ab"} : Query("ancestor", n, t)
 
 Spec == Init /\ [][Next]_vars
 
@@ -161,7 +161,7 @@ RelativesAgree ==
   /\ \A p, c \in Entries : (\E i \in DOMAIN ChildrenOf(p) : ChildrenOf(p)[i] = c) <=> par[c] = p
   /\ \A n \in Entries : n # Root => (n \in SeqSet(SiblingsOf(n)) /\ \A s \in SeqSet(SiblingsOf(n)) : par[s] = par[n])
   /\ \A n \in Entries : ParentOf(n) # 0 => \E k \in 1..Len(ChainOf(n)) \cup {0} : TRUE
-  /\ \A n \in Entries : \A t \in {"r", "a", "b"} : AncestorOf(n, t) # 0 => tag[AncestorOf(n, t)] = t
+  /\ \A n \in Entries : \A t \in {"r", "a", "ab"} : AncestorOf(n, t) # 0 => tag[AncestorOf(n, t)] = t
   /\ \A n \in Entries : Resolvable(tag[n]) /\ n # Root /\ Resolvable(tag[par[n]]) => ParentOf(n) = par[n]
 
 \* the class recorded for a path is the class the tree dictates, whatever was queried before
